@@ -82,16 +82,16 @@ Section Outer.
   (* ---- add_point_to_log ------------------------------------------------------- *)
   Lemma add_point_spec tg s :
     post (add_point E cf tg s)
-      (fun s' => frame s s' /\ ragged s' = ragged s /\ sx s' = sx s /\ mfl s' = mfl s /\ synced s' /\
+      (fun s' => frame s s' /\ sx s' = sx s /\ mfl s' = mfl s /\ synced s' /\
                  knobs s' = rt_write (va s) (knobs s) /\
                  exists r, log s' = log s ++ [r] /\ r_knobs r = knobs s /\ r_va r = va s /\ r_ta r = ta s /\
                            r_tag r = tg /\ truthful r)
-      (fun e s' => frame s s' /\ log s' = log s /\ ragged s' = true /\ sx s' = sx s /\ mfl s' = mfl s /\
+      (fun e s' => frame s s' /\ log s' = log s /\ sx s' = sx s /\ mfl s' = mfl s /\
                    knobs s' = rt_write (va s) (knobs s)).
   Proof.
     unfold add_point. pose proof (eval_spec E cf (knobs_to_x E cf (knobs s)) s) as H.
     destruct (solver_eval E cf (knobs_to_x E cf (knobs s)) s) as [[[y pn] s1]|e s1|]; cbn in *; auto.
-    - destruct H as ((A1 & A2 & A3 & A4 & A5 & A6 & A7) & (r & B1 & B2 & B3 & B4 & B5) & Hp & Hw).
+    - destruct H as ((A1 & A2 & A3 & A5 & A6 & A7) & (r & B1 & B2 & B3 & B4 & B5) & Hp & Hw).
       stsimpl. unfold frame; stsimpl. repeat split; auto.
       + exists y, r. stsimpl. repeat split; auto.
       + unfold rt_write. rewrite Hw. reflexivity.
@@ -100,7 +100,7 @@ Section Outer.
         * replace (knobs s1) with (rt_write (va s) (knobs s)) by (unfold rt_write; rewrite Hw; reflexivity).
           apply rt_write_rel.
         * rewrite Hp, B5. reflexivity.
-    - destruct H as ((A1 & A2 & A3 & A4 & A5 & A6 & A7) & Hk). stsimpl. unfold frame; stsimpl. repeat split; auto.
+    - destruct H as ((A1 & A2 & A3 & A5 & A6 & A7) & Hk). stsimpl. unfold frame; stsimpl. repeat split; auto.
   Qed.
 
   (* ---- reload ----------------------------------------------------------------- *)
@@ -109,17 +109,17 @@ Section Outer.
       (fun s' => exists r r', nth_error (log s) i = Some r /\ va s' = r_va r /\ ta s' = r_ta r /\
                    knobs s' = rt_write (r_va r) (r_knobs r) /\ log s' = log s ++ [r'] /\
                    r_knobs r' = r_knobs r /\ r_va r' = r_va r /\ r_ta r' = r_ta r /\ r_tag r' = 0%N /\ truthful r' /\
-                   synced s' /\ ragged s' = ragged s /\ sx s' = sx s /\ mfl s' = mfl s)
+                   synced s' /\ sx s' = sx s /\ mfl s' = mfl s)
       (fun e s' => (nth_error (log s) i = None /\ s' = s) \/
                    exists r, nth_error (log s) i = Some r /\ va s' = r_va r /\ ta s' = r_ta r /\
-                     knobs s' = rt_write (r_va r) (r_knobs r) /\ log s' = log s /\ ragged s' = true /\
+                     knobs s' = rt_write (r_va r) (r_knobs r) /\ log s' = log s /\
                      sx s' = sx s /\ mfl s' = mfl s).
   Proof.
     unfold reload. destruct (nth_error (log s) i) as [r|] eqn:Hn; [|cbn; auto].
     eapply post_weaken; [apply add_point_spec| |].
-    - intros s' ((A1 & A2 & A3) & B & C & D & Sy & K & (r' & L1 & L2 & L3 & L4 & L5 & L6)). stsimpl.
+    - intros s' ((A1 & A2 & A3) & C & D & Sy & K & (r' & L1 & L2 & L3 & L4 & L5 & L6)). stsimpl.
       exists r, r'. repeat split; auto.
-    - intros e s' ((A1 & A2 & A3) & B & C & D & D' & K). stsimpl. right. exists r. repeat split; auto.
+    - intros e s' ((A1 & A2 & A3) & B & D & D' & K). stsimpl. right. exists r. repeat split; auto.
   Qed.
 
   (* ---- the loop of Optimize.step ---------------------------------------------- *)
@@ -131,34 +131,34 @@ Section Outer.
   Lemma step_loop_spec fuel b : forall nn i s,
     synced s -> at_last s ->
     post (step_loop E cf fuel nn i b s)
-      (fun s' => frame s s' /\ ragged s' = ragged s /\ synced s' /\ at_last s' /\ ext_rows s s' (good_new s))
-      (fun e s' => frame s s' /\ ragged s' = ragged s /\ ext_rows s s' (good_new s)).
+      (fun s' => frame s s' /\ synced s' /\ at_last s' /\ ext_rows s s' (good_new s))
+      (fun e s' => frame s s' /\ ext_rows s s' (good_new s)).
   Proof.
     induction nn as [|nn IH]; intros i s Hsy Hal; cbn [step_loop].
-    - cbn. split; [apply frame_refl|]. split; [reflexivity|]. split; [exact Hsy|]. split; [exact Hal|]. apply ext_rows_refl.
+    - cbn. split; [apply frame_refl|]. split; [exact Hsy|]. split; [exact Hal|]. apply ext_rows_refl.
     - set (x := knobs_to_x E cf (knobs s)).
       set (s0 := match sx s with
                  | Some x' => if allclose_masked E (va s) x x' then s else set_sx s (Some x) (map (fun _ => true) x)
                  | None => set_sx s (Some x) (map (fun _ => true) x) end).
-      assert (H0 : knobs s0 = knobs s /\ va s0 = va s /\ ta s0 = ta s /\ log s0 = log s /\ ragged s0 = ragged s).
+      assert (H0 : knobs s0 = knobs s /\ va s0 = va s /\ ta s0 = ta s /\ log s0 = log s).
       { unfold s0. destruct (sx s); [destruct (allclose_masked E (va s) x l)|]; stsimpl; auto. }
-      destruct H0 as (K0 & V0 & T0 & L0 & R0).
+      destruct H0 as (K0 & V0 & T0 & L0).
       eapply post_bind'; [apply jac_step_spec| |].
-      { intros e s' ((A1 & A2 & A3 & A4 & A5) & _). rewrite K0, V0 in A5.
-        split; [unfold frame; repeat split; congruence|]. split; [congruence|].
+      { intros e s' ((A1 & A2 & A3 & A5) & _). rewrite K0, V0 in A5.
+        split; [unfold frame; repeat split; congruence|].
         exists []. rewrite app_nil_r. split; auto; congruence. }
-      intros s1 ((A1 & A2 & A3 & A4 & A5) & (x' & y & kp & S1 & S2 & S3 & S4 & S5 & S6)).
+      intros s1 ((A1 & A2 & A3 & A5) & (x' & y & kp & S1 & S2 & S3 & S4 & S5 & S6)).
       unfold log_step. rewrite S1.
       assert (Hk2 : knobs (set_knobs_from_x E cf x' s1) = knobs s1).
       { unfold set_knobs_from_x; stsimpl. rewrite A1. eapply wk_idem; eauto. }
       assert (H2 : va (set_knobs_from_x E cf x' s1) = va s1 /\ ta (set_knobs_from_x E cf x' s1) = ta s1 /\
-                   log (set_knobs_from_x E cf x' s1) = log s1 /\ ragged (set_knobs_from_x E cf x' s1) = ragged s1 /\
+                   log (set_knobs_from_x E cf x' s1) = log s1 /\
                    lres (set_knobs_from_x E cf x' s1) = lres s1 /\ ltw (set_knobs_from_x E cf x' s1) = ltw s1 /\
                    lpwt (set_knobs_from_x E cf x' s1) = lpwt s1 /\ pen_after (set_knobs_from_x E cf x' s1) = pen_after s1 /\
                    mfl (set_knobs_from_x E cf x' s1) = mfl s1 /\ alpha_last (set_knobs_from_x E cf x' s1) = alpha_last s1).
       { unfold set_knobs_from_x; stsimpl. repeat split; auto. }
       remember (set_knobs_from_x E cf x' s1) as s2 eqn:Es2. clear Es2.
-      destruct H2 as (V2 & T2 & L2 & R2 & Lr2 & Lw2 & Lp2 & P2 & M2 & Al2).
+      destruct H2 as (V2 & T2 & L2 & Lr2 & Lw2 & Lp2 & P2 & M2 & Al2).
       set (r := mkRow (knobs s2) (va s2) (ta s2) (pen_after s2) (lres s2) (ltw s2) (map negb (mfl s2)) (alpha_last s2) 0%N).
       set (s3 := set_log s2 (log s2 ++ [r])).
       assert (E2 : evald s2 y) by (eapply evald_frame'; eauto).
@@ -174,19 +174,18 @@ Section Outer.
         - unfold row_of, r; cbn. rewrite ?V2, ?T2, ?Hk2. rewrite K0, V0 in A5. repeat split; congruence. }
       assert (X3 : ext_rows s s3 (good_new s)).
       { exists [r]. unfold s3; stsimpl. split; [congruence|]. constructor; auto. }
-      assert (R3 : ragged s3 = ragged s) by (unfold s3; stsimpl; congruence).
       assert (Al3 : at_last s3).
       { exists (log s2), r. unfold s3; stsimpl. split; auto. unfold r; cbn. apply rt_rel_refl. }
       fold s3. destruct (lpwt s3) eqn:Hl3.
-      + cbn. split; [exact F3|]. split; [exact R3|]. split; [exists y; auto|]. split; [exact Al3|]. exact X3.
+      + cbn. split; [exact F3|]. split; [exists y; auto|]. split; [exact Al3|]. exact X3.
       + eapply post_weaken; [apply (IH (S i) s3)| |].
         * exists y; auto.
         * exact Al3.
-        * intros s' (G1 & G2 & G3 & G4 & G5).
-          split; [exact (frame_trans _ _ _ F3 G1)|]. split; [congruence|]. split; [exact G3|]. split; [exact G4|].
+        * intros s' (G1 & G3 & G4 & G5).
+          split; [exact (frame_trans _ _ _ F3 G1)|]. split; [exact G3|]. split; [exact G4|].
           eapply ext_rows_trans; eauto. intros r0 [Q1 Q2]. split; auto. eapply row_of_frame; eauto.
-        * intros e s' (G1 & G2 & G5).
-          split; [exact (frame_trans _ _ _ F3 G1)|]. split; [congruence|].
+        * intros e s' (G1 & G5).
+          split; [exact (frame_trans _ _ _ F3 G1)|].
           eapply ext_rows_trans; eauto. intros r0 [Q1 Q2]. split; auto. eapply row_of_frame; eauto.
   Qed.
 
@@ -208,7 +207,7 @@ Section Outer.
 
   Lemma step_core_spec fuel nn tb b s :
     post (step_core E cf fuel nn tb b s)
-      (fun s' => frame s s' /\ ragged s' = ragged s /\ synced s' /\ at_last s' /\
+      (fun s' => frame s s' /\ synced s' /\ at_last s' /\
          exists r0 M extra, log s' = log s ++ (r0 :: M) ++ extra /\ r_knobs r0 = knobs s /\
            Forall (good_new s) ((r0 :: M) ++ extra) /\
            (tb = true -> lpwt s' = true \/
@@ -219,7 +218,7 @@ Section Outer.
     unfold step_core.
     eapply post_bind'; [apply add_point_spec| |].
     { intros e s' (A1 & A2 & _). split; auto. exists []. rewrite app_nil_r; auto. }
-    intros s1 (F1 & R1 & X1 & M1 & Sy1 & K1 & (r0 & L1 & Rk & Rv & Rt & Rg & Tr)).
+    intros s1 (F1 & X1 & M1 & Sy1 & K1 & (r0 & L1 & Rk & Rv & Rt & Rg & Tr)).
     assert (G0 : good_new s r0).
     { split; auto. unfold row_of. rewrite Rk, Rv, Rt. repeat split; auto. apply kn_inact_refl. }
     assert (Al1 : at_last s1).
@@ -228,23 +227,23 @@ Section Outer.
     { rewrite L1, app_length; cbn. lia. }
     rewrite Hstart.
     eapply post_bind'; [apply (step_loop_spec fuel b nn 0 s1 Sy1 Al1)| |].
-    { intros e s' (A1 & A2 & A3). split; [exact (frame_trans _ _ _ F1 A1)|].
+    { intros e s' (A1 & A3). split; [exact (frame_trans _ _ _ F1 A1)|].
       eapply ext_rows_trans; [exists [r0]; split; [exact L1|constructor; auto]|exact A3|].
       intros r [Q1 Q2]. split; auto. eapply row_of_frame; eauto. }
-    intros s2 (F2 & R2 & Sy2 & Al2 & (M & L2 & FM)).
+    intros s2 (F2 & Sy2 & Al2 & (M & L2 & FM)).
     assert (F02 : frame s s2) by exact (frame_trans _ _ _ F1 F2).
     assert (L02 : log s2 = log s ++ r0 :: M). { rewrite L2, L1, <- app_assoc. reflexivity. }
     assert (FM' : Forall (good_new s) (r0 :: M)).
     { constructor; auto. eapply Forall_impl; [|exact FM]. intros r [Q1 Q2]. split; auto. exact (row_of_frame _ _ _ F1 Q2). }
     assert (Hok2 : (tb = true -> lpwt s2 = true \/
                       argmin E (map r_pen (r0 :: M)) = pred (length (map r_pen (r0 :: M)))) ->
-              frame s s2 /\ ragged s2 = ragged s /\ synced s2 /\ at_last s2 /\
+              frame s s2 /\ synced s2 /\ at_last s2 /\
                  exists r0 M extra, log s2 = log s ++ (r0 :: M) ++ extra /\ r_knobs r0 = knobs s /\
                    Forall (good_new s) ((r0 :: M) ++ extra) /\
                    (tb = true -> lpwt s2 = true \/
                     exists rb, nth_error (r0 :: M) (argmin E (map r_pen (r0 :: M))) = Some rb /\
                                rt_rel E ws (r_knobs rb) (knobs s2))).
-    { intros Hc. split; [exact F02|]. split; [congruence|]. split; [exact Sy2|]. split; [exact Al2|].
+    { intros Hc. split; [exact F02|]. split; [exact Sy2|]. split; [exact Al2|].
       exists r0, M, []. rewrite app_nil_r. split; [exact L02|]. split; [exact Rk|]. split; [exact FM'|].
       intros Ht. destruct (Hc Ht) as [Hl|Ha]; [left; exact Hl|]. right.
       destruct Al2 as (l & rl & Hl & Hrt). exists rl. split; auto.
@@ -266,7 +265,7 @@ Section Outer.
         + unfold frame. rewrite V, T, K. repeat split; auto. eapply kn_inact_trans; [exact W3|].
           unfold rt_write. rewrite W1. apply wk_inact.
         + exists (r0 :: M). rewrite L. split; auto. }
-    intros s3 (rb & r' & Hn & V & T & K & L & Q1 & Q2 & Q3 & Q4 & Q5 & Sy3 & Rg3 & _).
+    intros s3 (rb & r' & Hn & V & T & K & L & Q1 & Q2 & Q3 & Q4 & Q5 & Sy3 & _).
     rewrite L02, nth_error_app_plus in Hn.
     assert (Gb : good_new s rb) by (eapply Forall_forall; [exact FM'|eapply nth_error_In; eauto]).
     destruct Gb as [_ (W1 & W2 & W3)].
@@ -274,7 +273,6 @@ Section Outer.
     split.
     { unfold frame; stsimpl. rewrite V, T, K. repeat split; auto. eapply kn_inact_trans; [exact W3|].
       unfold rt_write. rewrite W1. apply wk_inact. }
-    split; [congruence|].
     split.
     { destruct Sy3 as (out & Ev). exists out. eapply evald_frame'; eauto. }
     split.
@@ -289,12 +287,12 @@ Section Outer.
 
   (* ---- enable / disable ---------------------------------------------------------- *)
   Definition same_data (s s' : state) : Prop :=
-    knobs s' = knobs s /\ log s' = log s /\ ragged s' = ragged s /\ sx s' = sx s /\ mfl s' = mfl s /\
+    knobs s' = knobs s /\ log s' = log s /\ sx s' = sx s /\ mfl s' = mfl s /\
     lpwt s' = lpwt s /\ lres s' = lres s /\ ltw s' = ltw s.
   Lemma same_data_refl s : same_data s s.
   Proof. unfold same_data; repeat split; auto. Qed.
   Lemma same_data_trans s1 s2 s3 : same_data s1 s2 -> same_data s2 s3 -> same_data s1 s3.
-  Proof. unfold same_data. intros (A1&A2&A3&A4&A5&A6&A7&A8) (B1&B2&B3&B4&B5&B6&B7&B8). repeat split; congruence. Qed.
+  Proof. unfold same_data. intros (A1&A2&A4&A5&A6&A7&A8) (B1&B2&B4&B5&B6&B7&B8). repeat split; congruence. Qed.
 
   Lemma able_data st t v vn s : same_data s (able E cf st t v vn s).
   Proof. unfold able, same_data; stsimpl. repeat split; auto. Qed.
@@ -333,7 +331,7 @@ Section Outer.
 
   Lemma solve_spec fuel nn tb b s :
     post (solve E cf fuel nn tb b s)
-      (fun s' => frame s s' /\ ragged s' = ragged s /\ synced s' /\ (c_assert cf = true -> lpwt s' = true) /\
+      (fun s' => frame s s' /\ synced s' /\ (c_assert cf = true -> lpwt s' = true) /\
                  ext_truth s s')
       (fun e s' => ext_truth s s' /\
          (c_restore cf = false -> frame s s') /\
@@ -344,9 +342,9 @@ Section Outer.
     set (k := match nn with Some k => k | None => c_nmax cf end).
     set (x := knobs_to_x E cf (knobs s)).
     set (s0 := set_sx s (Some x) (map (fun _ => true) x)).
-    assert (D0 : knobs s0 = knobs s /\ va s0 = va s /\ ta s0 = ta s /\ log s0 = log s /\ ragged s0 = ragged s).
+    assert (D0 : knobs s0 = knobs s /\ va s0 = va s /\ ta s0 = ta s /\ log s0 = log s).
     { unfold s0; stsimpl; auto. }
-    destruct D0 as (K0 & V0 & T0 & L0 & R0).
+    destruct D0 as (K0 & V0 & T0 & L0).
     assert (F0 : forall s', frame s0 s' -> frame s s').
     { unfold frame. rewrite K0, V0, T0. auto. }
     assert (X0 : forall s', ext_rows s0 s' (good_new s0) -> ext_truth s s').
@@ -354,18 +352,18 @@ Section Outer.
     set (body := bind (opt_step E cf fuel k tb no_args b s0)
                       (fun s1 => if c_assert cf && negb (lpwt s1) then Err ERuntime s1 else Ok s1)).
     assert (Hbody : post body
-              (fun s' => frame s s' /\ ragged s' = ragged s /\ synced s' /\ (c_assert cf = true -> lpwt s' = true) /\
+              (fun s' => frame s s' /\ synced s' /\ (c_assert cf = true -> lpwt s' = true) /\
                          ext_truth s s')
               (fun e s' => frame s s' /\ ext_truth s s')).
     { unfold body. rewrite opt_step_no_args.
       eapply post_bind'; [apply step_core_spec| |].
       - intros e s' (A1 & A2). split; auto.
-      - intros s1 (A1 & A2 & A3 & A4 & (r0 & M & extra & L & _ & Fm & _)).
+      - intros s1 (A1 & A3 & A4 & (r0 & M & extra & L & _ & Fm & _)).
         assert (Xt : ext_truth s s1).
         { apply X0. exists ((r0 :: M) ++ extra). split; auto. }
         destruct (c_assert cf && negb (lpwt s1)) eqn:Hc; cbn.
         + split; auto.
-        + split; auto. split; [congruence|]. split; auto. split; auto.
+        + split; auto. split; auto. split; auto.
           intros Ha. rewrite Ha in Hc. cbn in Hc. destruct (lpwt s1); auto; discriminate. }
     destruct body as [s1|e s1|] eqn:Hb; cbn in Hbody; cbn; auto.
     destruct Hbody as (Fr & (more & Lm & Fm)).
